@@ -34,30 +34,50 @@ TITLE = "Reported statistics and counters agree with the trajectories"
 LEAN_MODULE = "SnowProofs.Props.C12"
 _T = lambda n, c, s="full": dict(name="Snow.C12." + n, clause=c, strength=s)  # noqa: E731
 THEOREMS = [
-    _T("tnuc_first_ice", "ice first appears at the reported nucleation time: t_nuc = t[first column with sigma>0]"),
+    _T("tnuc_first_ice", "for admissible trajectories (sigma >= 0, ice once formed is kept - MONITORED on every run, = C06's conditional run invariant): ice first appears at the reported nucleation time: t_nuc = t[first column with sigma>0]",
+       "full-under-monitored-hypothesis"),
     _T("tnuc_grid", "nucleation times lie on the grid: t_nuc = (k+1)*dt for an executed step k"),
     _T("tnuc_last_step_counterexample", "REFUTED 'times lie within the process': a vial nucleating in the last step gets "
        "t_nuc = N*dt beyond the last grid time, no column shows its ice (K3)", "counterexample"),
     _T("Tnuc_supercooled", "the nucleation temperature is below T_eq_l"),
-    _T("Tnuc_step_temperature", "the nucleation temperature is the vial's temperature after the liquid update of the nucleating step"),
-    _T("tsol_def", "t_sol = t[first column with sigma>threshold] - t_nuc; none if no column is above the threshold"),
-    _T("tsol_nonneg", "a solidification time is non-negative"),
+    _T("Tnuc_step_temperature", "for admissible trajectories (sigma >= 0, ice once formed is kept - MONITORED on every run, = C06's conditional run invariant): T_nuc = X_T[i,k0-1] + q/hl*dt with q the vial's ACTUAL net heat flow (Flake.heatFlow of the batch state stored in column k0-1 and T_shelf[k0-1]) - the temperature after the liquid update of the nucleating step",
+       "full-under-monitored-hypothesis"),
+    _T("tsol_def", "for admissible trajectories (sigma >= 0, ice once formed is kept - MONITORED on every run, = C06's conditional run invariant): t_sol = t[first column with sigma>threshold] - t_nuc; none if no column is above the threshold",
+       "full-under-monitored-hypothesis"),
+    _T("tsol_nonneg", "for admissible trajectories (sigma >= 0, ice once formed is kept - MONITORED on every run, = C06's conditional run invariant): a solidification time is non-negative",
+       "full-under-monitored-hypothesis"),
     _T("tsol_only_if_nucleated", "a solidification time exists only for nucleated vials"),
-    _T("fromStates_times_eq", "nucleationTimes/solidificationTimes(fromStates=True) equal the recorded ones for every stored "
+    _T("fromStates_times_eq", "for admissible trajectories (sigma >= 0, ice once formed is kept - MONITORED on every run, = C06's conditional run invariant): nucleationTimes/solidificationTimes(fromStates=True) equal the recorded ones for every stored "
        "vial whose ice is visible in a stored column (per stored vial; the scatter into the storage mask and the "
-       "group selection are executable model code compared on every run, not re-proved)"),
-    _T("fromStates_times_eq_all", "full recording: the accessor model applied to the run's state matrix returns the run's "
-       "t_nucleation / t_solidification arrays (whole vectors)"),
-    _T("fromStates_Tnuc_within_one_step", "nucleationTemperatures(fromStates=True) = recorded T_nuc minus the sensible "
-       "update q/hl*dt of the nucleating step (equality is false)", "partial"),
+       "group selection are executable model code compared on every run, not re-proved)",
+       "full-under-monitored-hypothesis"),
+    _T("fromStates_times_eq_all", "for admissible trajectories (sigma >= 0, ice once formed is kept - MONITORED on every run, = C06's conditional run invariant): full recording: the accessor model applied to the run's state matrix returns the run's "
+       "t_nucleation / t_solidification arrays (whole vectors)",
+       "full-under-monitored-hypothesis"),
+    _T("fromStates_Tnuc_within_one_step", "for admissible trajectories (monitored): nucleationTemperatures(fromStates=True) = X_T[i,k0-1] and the recorded "
+       "T_nuc = that + q/hl*dt with q the ACTUAL heat flow of step k0-1 (equality is false)", "partial"),
     _T("fromStates_Tnuc_counterexample", "REFUTED 'states-derived nucleation temperature equals the recorded one' (K2)", "counterexample"),
     _T("counter_states", "sigmaCounter(t,thr,fromStates=True) = #{stored vials with sigma(first grid time >= t) > thr}"),
-    _T("counter_nuc_stats", "on-grid t: sigmaCounter(t,0) on the stats path = #{t_nuc <= t} = the states count"),
+    _T("counter_nuc_stats", "for admissible trajectories (sigma >= 0, ice once formed is kept - MONITORED on every run, = C06's conditional run invariant): on-grid t: sigmaCounter(t,0) on the stats path = #{t_nuc <= t} = the states count",
+       "full-under-monitored-hypothesis"),
     _T("counter_sol_stats_counterexample", "REFUTED 'sigmaCounter(t) counts the vials solidified at t' on the stats path: it "
        "compares the solidification DURATION with clock time (K4)", "counterexample"),
+    _T("rows_are_stored_matrix", "the rows sigmaRow/tempRow the theorems speak about are the rows of the model's stored matrix "
+       "Result.X (full recording): what X_T[i,k] / X_sigma[i,k] read"),
+    _T("adm_of_trajAdm", "the monitored trajectory hypothesis follows from C06's run invariant TrajAdm (itself conditional on the "
+       "stability condition and the monitored per-step side condition)"),
     _T("hyp_jump_of_valid", "the hypothesis 'positive initial ice' holds for every physically valid constant set (both formulations)"),
     _T("nonvacuous", "hypotheses are satisfiable (a concrete run that nucleates and crosses the threshold)", "nonvacuity"),
 ]
+LEVEL_TEXT = ("Lean 4 theorems about the executable loop model (Flake.run) and accessor model (FlakeStats), exact real arithmetic, tied "
+              "to /repo on every run by differential checks; the property's clauses are also evaluated per vial on real runs. "
+              "Proved without trajectory hypothesis: "
+              + "; ".join(t["clause"] for t in THEOREMS if t["strength"] == "full")
+              + ". Proved for admissible trajectories only (a MONITORED hypothesis, not in the property's quantifier; runs "
+              "outside it are counted as outside_hypothesis): "
+              + "; ".join(t["name"].split(".")[-1] for t in THEOREMS if "monitored-hypothesis" in t["strength"])
+              + ". Partial: " + "; ".join(t["clause"] for t in THEOREMS if t["strength"] == "partial")
+              + ". Three clauses are refuted on the model and on the real code (K2, K3, K4, known findings).")
 TRUSTED = [
     "Lean 4.33 kernel; axioms per theorem listed under coverage.axioms",
     "theorems are over the reals: IEEE rounding is not modelled (t[k] = k*dt exactly)",
